@@ -269,6 +269,8 @@ def random_spec(rng):
         if rng.random() < 0.3:
             body["new_page"] = True
             body["pageby_row"] = "first_row"
+        elif rng.random() < 0.25:
+            body["pageby_row"] = "first_row"      # without new_page: must change nothing
     if sbn:
         body["subline_by"] = [f"N{lvl}" for lvl in range(sbn)]
     if rng.random() < 0.4:
